@@ -5,6 +5,15 @@ HERE = os.path.dirname(os.path.dirname(os.path.abspath(__file__)))
 ids = [json.loads(l)["id"] for l in open(os.path.join(HERE, "properties.jsonl"))]
 
 CLAIMS = {
+ "C15": dict(
+   text="Ten core parsers (ethernet, vlan incl. nested tags, llc, arp, ipv4, udp, icmp, echo, unreachable, time-exceeded) are "
+        "proved total on arbitrary byte strings of any length: construction raises nothing, `parsed` is a bool, the remainder "
+        "is bytes or a packet object, and pack() and str() of the result raise nothing (empty `raises`, every implicit "
+        "run-time check is an obligation). All parsers reachable from ethernet.parse are exercised by a bounded stand-in over "
+        "every truncation and byte corruption of a corpus of valid frames of every protocol plus random frames; it found ten "
+        "genuine raising paths, all repaired (fix: commits).",
+   note="trusted: pyvc, z3; sub-parsers are callees in the proofs; TLV/text-walking parsers bounded only.",
+   ref="7/C15"),
  "C14": dict(
    text="Core stack proved for all field values and payload lengths: Ethernet, 802.1Q, ARP, IPv4, UDP, TCP, ICMP echo - pack() "
         "equals the RFC layout with derived length fields, the checksum routine is applied to exactly the RFC-prescribed bytes "
